@@ -102,7 +102,7 @@ def e2e : List Str → Str
         let t := if f = "A".toList then atA a name v
           else if f = "dp".toList then declareP a name v
           else if f = "set".toList then setLine name v
-          else exportP name v
+          else exportP (inheritX a true) name v
         semi [esc t, readStmt name t]
       | _ => "bad-form".toList
     else if isArrayForm f then e2eArr f (if a.isEmpty then ['-'] else a) rest
@@ -150,7 +150,7 @@ def shadowSegs (tmp : Bool) (v : Var) : List Str :=
       semi ["dp".toList, stmt n (declareP v.attrs n x)],
       semi ["dpl".toList, stmt n (declareP v.attrs n x)],
       semi ["set".toList, stmt n (setLine n x)],
-      (if hasX v.attrs then semi ["ex".toList, stmt n (exportP n x)] else semi ["ex".toList, "ABSENT".toList]),
+      (if hasX v.attrs then semi ["ex".toList, stmt n (exportP v.attrs n x)] else semi ["ex".toList, "ABSENT".toList]),
       semi ["xt".toList, words (traceArg x)],
       semi ["xs".toList, stmt "zzt".toList (setLine "zzt".toList x)],
       (let t := aliasP "zzal".toList x; semi ["al".toList, esc t, readAlias t]),
